@@ -14,7 +14,7 @@
 
 use std::collections::{BTreeMap, BTreeSet};
 
-use p2panda::streams::verif::{Aggregator, SyncEventView, process};
+use p2panda::streams::verif::{Aggregator, SyncEventView};
 use p2panda_core::Hash;
 use p2panda_sync::FromSync;
 use p2panda_sync::protocols::{LogSyncMessage, Metrics, TopicLogSyncEvent};
@@ -228,10 +228,10 @@ fn replay_peer(out: &NetOutcome, peer: usize, truth: &[Wire], prepend_started: b
         if first_of_session {
             started.insert(sid);
             if prepend_started && !matches!(fs.event, Ev::SessionStarted) {
-                let _ = process(&mut agg, FromSync { session_id: sid, remote: fs.remote, event: Ev::SessionStarted });
+                let _ = agg.process(FromSync { session_id: sid, remote: fs.remote, event: Ev::SessionStarted });
             }
         }
-        let view: Option<SyncEventView> = process(&mut agg, fs.clone());
+        let view: Option<SyncEventView> = agg.process(fs.clone());
         if is_terminal(&fs.event) {
             ended.insert(sid);
         }
@@ -360,7 +360,7 @@ fn classify_excess(contrib: &BTreeMap<u64, Contribution>, idx_of: &BTreeMap<u64,
         let Some(i) = idx_of.get(sid) else { continue };
         let w = &truth[*i];
         let over_sent = c.sent > w.sent();
-        let over_recv = c.recv > w.recv_sync + w.recv_live_all;
+        let over_recv = c.recv > w.recv();
         if !over_sent && !over_recv {
             continue;
         }
@@ -389,7 +389,7 @@ impl Property for C40Prop {
     }
     fn budget(&self, tier: Tier) -> Budget {
         match tier {
-            Tier::Quick => Budget { runs: 24_000, wall_cap_s: 40 },
+            Tier::Quick => Budget { runs: 24_000, wall_cap_s: 35 },
             Tier::Thorough => Budget { runs: 400_000, wall_cap_s: 360 },
         }
     }
